@@ -122,6 +122,19 @@ def py_item(item):
                     if not wsref.same_partition(np.roll(lab, s, axis=1).ravel().tolist(), lab2.ravel().tolist()):
                         clause = "shift-changes-partition"
                         break
+            if clause is None:
+                # the wrapper must give the same labels whatever the memory layout of the float32 input
+                big = np.full((nf, nd * 2), -7.0, dtype=np.float32)
+                big[:, ::2] = z32
+                for lname, arr in (("fortran", np.asfortranarray(z32)), ("strided", big[:, ::2]), ("negstride", np.ascontiguousarray(z32[::-1])[::-1])):
+                    try:
+                        labl = specpart.partition(arr, ih)
+                    except Exception as e:  # noqa
+                        labl = None
+                    res["evals"] += 1
+                    if labl is None or not np.array_equal(labl, lab):
+                        clause = "layout-dependent:" + lname
+                        break
             if clause is None and ih == ihs[-1] and nb >= 1:
                 # np_ptm3(parts=None) returns one partition per basin, together the input
                 parts = np_ptm3(z, z, freq, dirs, parts=None, ihmax=ih)
